@@ -10,4 +10,8 @@ mkdir -p build evidence/replay
 cp /repo/go.sum harness/go.sum
 ( cd harness && go1.26.8 test -c -tags verif -o ../build/harness.test . ) || echo "WARNING: the base harness did not build"
 ( cd harness && go1.26.8 test -c -race -tags verif -o ../build/harness.race.test . ) || true
+# warm the Go build cache for every tag set the checks use (lib/props/*.py: go_tags="...")
+for tags in $(grep -ho 'go_tags="[^"]*"' lib/props/*.py | sort -u | sed 's/go_tags="//; s/"//'); do
+  ( cd harness && go1.26.8 test -c -tags "verif,$tags" -o /dev/null . ) >/dev/null 2>&1 || echo "WARNING: harness with tags $tags did not build"
+done
 echo setup ok
